@@ -191,6 +191,23 @@ CLAIMS = {
   "oracle 'never panic'.",
   "Dynamic layout: real code only (its mod.rs is not modelled). Stack exhaustion of the recursive Merkle walk and allocator aborts are runtime behaviour (an abort is recorded as a panic by the harness).",
   "Lean 4 machine-checked proof over model + translated programs + malformed-input sweep", "7/C18"),
+
+ 'C02': ("proof",
+  "PARTIAL on the transcript-bound half. Lean theorems (Props/C02.lean) for ARBITRARY layout ops and hash instances: (A) proofs agreeing on "
+  "the hashed public input and the unsent commitment have identical challenges and queries, so witness-only mutants run the same protocol; "
+  "(B) two ACCEPTED proofs differing only in the witness agree on every decommitted cell of the three tables, on the consumed prefix of every "
+  "authentication list, and through every FRI layer on coset rows, consumed leaves and consumed auth nodes — or an explicit hash collision is "
+  "produced (decommit_two_openings / table_two_openings: two accepting openings of ONE root at the same queries, no committed tree assumed); "
+  "(C) deleting an element of oods_values, last-layer coefficients or any decommitment list is rejected unconditionally; deleting a consumed "
+  "auth node is rejected or collides; (D) appending unused trailing auth nodes / FRI leaves / layer witnesses / inner roots keeps an "
+  "accepted verdict — the tolerated malleability, proved as such; (E) every config number that ConfigOK pins (heights, columns, input size, "
+  "inner-layer shapes, friendly counts, composition columns) cannot be changed alone; (F) changing a commitment, an oods value, a FRI "
+  "coefficient, the nonce or a hashed public-input field changes EVERY later challenge and the query-sampling state, or a "
+  "Poseidon/Pedersen collision is exhibited. The sweep IS the violation search: every scalar position of accepted proofs replaced / deleted / "
+  "swapped on the real verifier (must not accept), sampled mutants and every trailing append through the Lean pipeline model.",
+  "NOT proved (UNPROVED block in the file, DESIGN section 10): for transcript-bound positions, and for pow_bits / n_queries, that the mutant "
+  "then fails some check — a random-oracle statement; left to the sweep.",
+  "Lean 4 machine-checked proof (collision-extraction; partial on transcript-bound positions) + position sweep on the real verifier", "7/C02"),
 }
 
 ORDER = [f'C{i:02d}' for i in range(1, 20)]
